@@ -13,7 +13,7 @@ RULE = (
     "Model-based history testing: Hypothesis draws a scene (all boundary kinds incl. PML, 1-2 sources with schedules, "
     "1-2 detectors with arbitrary switches, optional gradient configuration) and a sequence of 2..6 operations on ONE "
     "reused container: advance(n) = custom_fdtd_forward from the current step without reset; reset() = "
-    "ArrayContainer.reset; restart(n) = custom_fdtd_forward with reset_container=True to step n; rerun_full() = run_fdtd "
+    "ArrayContainer.reset; restart(n) = custom_fdtd_forward with reset_container=True to step n (recording or not); rerun_full() = run_fdtd "
     "on whatever arrays the previous operation returned. The model is the single-call run: states after k steps for "
     "every k, produced by stepping the public forward() from a freshly reset container. After EVERY operation E, H, all "
     "PML auxiliary fields and every detector array must equal the model at the current step count; after reset() all "
@@ -32,21 +32,22 @@ def case_strategy(draw, ctx):
     T = spec["steps"]
     ops, cur = [], 0
     for _ in range(draw(st.integers(2, 6))):
-        kind = draw(st.sampled_from(["advance", "advance", "advance", "reset", "restart", "rerun_full"]))
-        if kind == "advance":
+        kind = draw(st.sampled_from(["advance", "advance", "advance", "advance_norec", "reset", "restart", "restart_norec",
+                                     "rerun_full"]))
+        if kind in ("advance", "advance_norec"):
             if cur >= T:
-                kind = draw(st.sampled_from(["reset", "restart", "rerun_full"]))
+                kind = draw(st.sampled_from(["reset", "restart", "restart_norec", "rerun_full"]))
             else:
                 n = draw(st.integers(1, T - cur))
-                ops.append(["advance", n])
+                ops.append([kind, n])
                 cur += n
                 continue
         if kind == "reset":
             ops.append(["reset"])
             cur = 0
-        elif kind == "restart":
+        elif kind in ("restart", "restart_norec"):
             n = draw(st.integers(0, T))
-            ops.append(["restart", n])
+            ops.append([kind, n])
             cur = n
         else:
             ops.append(["rerun_full"])
@@ -95,10 +96,25 @@ def body(ctx, case):
     scale = max(max(np.abs(m["E"]).max(), np.abs(m["H"]).max()) for m in model) or 1.0
     tol = ctx.tol(1e-12, 1e-5)
 
+    # Detector arrays are additive over recorded steps (each recorded step writes its own row / adds its own phasor
+    # term), so the expected detector state after a history is the sum over its *recorded* segments [a, b) of
+    # model[b] - model[a]; fields and PML state depend on the step count only.
+    det_expected = {n: np.zeros_like(v) for n, v in model[0].items() if n.startswith("det/")}
+
+    def record_segment(a, b_):
+        for n in det_expected:
+            det_expected[n] = det_expected[n] + (model[b_][n] - model[a][n])
+
+    def zero_detectors():
+        for n in det_expected:
+            det_expected[n] = np.zeros_like(det_expected[n])
+
     def compare(arrays, k, what):
         got = _snapshot(arrays)
         ctx.check(set(got) == set(model[k]), f"{what}: state layout changed", sorted(got), sorted(model[k]))
         for name, ref in model[k].items():
+            if name.startswith("det/"):
+                ref = det_expected[name]
             sc = scale if not name.startswith("det/") else None
             t = tol if not name.startswith("det/") else max(tol, 1e-10 if ctx.f64 else 1e-4)
             if name.startswith("det/") and "field" in name:
@@ -110,17 +126,24 @@ def body(ctx, case):
     ran = False
     for i, op in enumerate(case["ops"]):
         what = f"after op {i} {op} (history {case['ops'][:i + 1]})"
-        if op[0] == "advance":
-            t, arrays = custom_fdtd_forward(arrays, b.objects, b.config, b.key, reset_container=False, record_detectors=True,
+        if op[0] in ("advance", "advance_norec"):
+            rec = op[0] == "advance"
+            t, arrays = custom_fdtd_forward(arrays, b.objects, b.config, b.key, reset_container=False, record_detectors=rec,
                                             start_time=cur, end_time=cur + op[1], show_progress=False)
+            if rec:
+                record_segment(cur, cur + op[1])
             cur += op[1]
             partial_runs += 1
             nt = nt or partial_runs >= 2
             ctx.check(int(t) == cur, f"{what}: returned step {int(t)}", int(t), cur)
             ran = True
-        elif op[0] == "restart":
-            t, arrays = custom_fdtd_forward(arrays, b.objects, b.config, b.key, reset_container=True, record_detectors=True,
+        elif op[0] in ("restart", "restart_norec"):
+            rec = op[0] == "restart"
+            t, arrays = custom_fdtd_forward(arrays, b.objects, b.config, b.key, reset_container=True, record_detectors=rec,
                                             start_time=0, end_time=op[1], show_progress=False)
+            zero_detectors()  # resetting a container zeroes all time-dependent state, detector records included
+            if rec:
+                record_segment(0, op[1])
             nt = nt or ran
             cur = op[1]
             partial_runs += 1
@@ -130,10 +153,13 @@ def body(ctx, case):
             t, arrays = fdtdx.run_fdtd(arrays=arrays, objects=b.objects, config=b.config, key=b.key, show_progress=False)
             nt = nt or ran
             cur = T
+            zero_detectors()
+            record_segment(0, T)
             ctx.check(int(t) == T, f"{what}: returned step {int(t)}", int(t), T)
             ran = True
         else:
             arrays = arrays.reset()
+            zero_detectors()
             nt = nt or ran
             cur = 0
             snap = _snapshot(arrays)
@@ -151,6 +177,6 @@ def body(ctx, case):
 
 
 SUBS = [
-    Sub(name="histories", body=body, strategy=lambda ctx: case_strategy(ctx), quick=8, thorough=320,
+    Sub(name="histories", body=body, strategy=lambda ctx: case_strategy(ctx), quick=10, thorough=320,
         lanes=("f64", "f32"), f32_fraction=0.25, quick_shards=2, rule="operation sequences vs single-call model"),
 ]
